@@ -141,7 +141,9 @@ class Alternative(ElseIf, ConclusionSelector):
         outputs = super()._evaluate__(sources, yield_when_false=yield_when_false)
         for output in outputs:
             left_is_true = not self.left._is_false_
-            right_is_true = not self.right._is_false_
+            # The right branch fired when this else-if is true although its left is not. Its own flag cannot be used:
+            # it is stale when the output was served from the right-side cache without evaluating the branch.
+            right_is_true = not left_is_true and not self._is_false_
             if left_is_true:
                 self.update_conclusion(output, self.left._conclusion_)
             elif right_is_true:
